@@ -184,9 +184,14 @@ def near_misses(draw, p, count=4):
     is_text = isinstance(p, str)
     out = []
     kinds = ["subst", "delete", "insert", "prefix", "extend", "case", "highbit", "blank", "extend-long", "swap"]
+    n = len(p)
+    if n:
+        # the two commonest boundary slips (last unit ignored / last unit optional) are always tried
+        last = p[-1]
+        out.append(("subst-last", p[:-1] + (("y" if last != "y" else "z") if is_text else bytes([(last ^ 1) or 3]))))
+        out.append(("drop-last", p[:-1]))
     for _ in range(count):
         k = draw(st.sampled_from(kinds))
-        n = len(p)
         if k == "subst" and n:
             i = draw(st.one_of(st.integers(0, n - 1), st.sampled_from([0, n - 1, min(n - 1, 7), min(n - 1, 8), min(n - 1, 71), min(n - 1, 72)])))
             if is_text:
